@@ -69,7 +69,64 @@ def analyse(ctx, replace=None, only=None):
         R.require(n >= 1, "%s: no memory operation found" % name)
 
 
+class _NoHandlesHooks:
+    """entry state: the queue's handle array is all-zero - what aws_priority_queue_init_* leave until the first push with a
+    handle (and what a queue used without handles keeps for life)"""
+
+    def entry(self, num, st):
+        f = num.fn
+        seen = set()
+        for b in f.blocks.values():
+            for el in list(b.elems) + ([b.cond] if b.cond is not None else []):
+                for n in f.walk(el, follow_refs=True):
+                    if n["k"] == "member" and n.get("rec") == "aws_array_list" and f.show(n).endswith("queue->backpointers." + n["f"]) and n["f"] not in seen:
+                        k = num.key(n, st)
+                        if k:
+                            seen.add(n["f"])
+                            p = num.field(st, k, "aws_array_list", n["f"])
+                            st.add(p)
+                            st.add(-p)
+        self.seen = seen
+
+    def call(self, num, st, e, args):
+        if e.get("callee") == "aws_is_mem_zeroed" and "queue->backpointers" in num.fn.show(num.fn.d(e["a"][0])):
+            return Poly.const(1)  # by the entry assumption; the predicate is read-only
+        return NotImplemented
+
+
+def valid_without_handles(R, P):
+    """VALID: the validity predicate accepts a queue whose handle array was never allocated.  It is not only an assertion:
+    aws_task_scheduler_clean_up cancels the pending tasks only when the scheduler's queue `is valid`."""
+    from sa.num import Num, Limit, entails
+    f = P.fn("aws_priority_queue_backpointers_valid")
+    if not R.require(f is not None, "aws_priority_queue_backpointers_valid not found"):
+        return
+    R.fn(f)
+    hk = _NoHandlesHooks()
+    num = Num(f, P, hk, max_paths=20000)
+    rets = [x for b in f.blocks.values() for x in b.elems if x["k"] == "ret"]
+    try:
+        sts = num.states_at({r["id"] for r in rets})
+    except Limit as ex:
+        R.broken(str(ex))
+        return
+    n, bad = 0, None
+    for r in rets:
+        for st in sts.get(r["id"], []):
+            q = st.env.get("v:queue")
+            if q is not None and entails(st, q) and entails(st, -q):
+                continue  # the NULL-queue answer
+            n += 1
+            rv = num.val(r["a"][0], st)
+            if rv is None or num.assume_nodeval(rv, False, st.copy()):
+                bad = "line %d can return false" % r["loc"][0]
+    R.require(n >= 1 and len(getattr(hk, "seen", ())) >= 3, "validity predicate: no return state / handle-array fields not found (%d states, fields %s)" % (n, sorted(getattr(hk, "seen", ()))))
+    R.check(bad is None, "VALID", "handle-array-absent-is-valid", "%s()" % f.name, "a queue whose handle array is all-zero is reported valid on every path (%d return states)" % n,
+            "a queue that never got a handle is reported invalid (%s): aws_task_scheduler_clean_up tests the scheduler's validity before it cancels the pending tasks, so a scheduler that only ever saw run-now tasks drops them without invoking them" % bad)
+
+
 def queue_rules(R, P):
+    valid_without_handles(R, P)
     fns = {f.name: f for f in P.functions_in("source/priority_queue.c")}
     need = ["s_swap", "s_sift_down", "s_sift_up", "s_sift_either", "aws_priority_queue_push_ref", "s_remove_node", "aws_priority_queue_remove", "aws_priority_queue_pop",
             "aws_priority_queue_top", "aws_priority_queue_clear", "aws_priority_queue_node_init", "aws_priority_queue_node_is_in_queue"]
@@ -341,6 +398,7 @@ def queue_rules(R, P):
 
 
 MUTANTS = [
+    {"name": "zeroed-handle-array-invalid", "file": PQ, "expect": "VALID", "old": "    return ((backpointer_list_is_valid && backpointer_struct_is_valid) || AWS_IS_ZEROED(queue->backpointers));", "new": "    return backpointer_list_is_valid && backpointer_struct_is_valid;"},
     {"name": "sift-either-skips-leaves", "file": PQ, "expect": "HEAP-SHAPE", "old": "    if (!index || !s_sift_up(queue, index)) {\n        s_sift_down(queue, index);", "new": "    if (LEFT_OF(index) >= aws_array_list_length(&queue->container)) {\n        return;\n    }\n    if (!index || !s_sift_up(queue, index)) {\n        s_sift_down(queue, index);"},
     {"name": "handle-array-zero-fill-in-bytes-of-index", "file": PQ, "expect": "COVER", "old": "        memset(queue->backpointers.data, 0, queue->backpointers.current_size);", "new": "        memset(queue->backpointers.data, 0, index);"},
     {"name": "swap-second-reindex-else-if", "file": PQ, "expect": "LOCKSTEP", "old": "            (*bp_a)->current_index = a;\n        }\n\n        if (*bp_b) {", "new": "            (*bp_a)->current_index = a;\n        } else if (*bp_b) {"},
